@@ -9,6 +9,7 @@ package main
 
 import (
 	"bufio"
+	"bytes"
 	"context"
 	"encoding/json"
 	"fmt"
@@ -483,12 +484,42 @@ func findItems(ds string, ps []*proc, tag string) {
 				size = int(sz.GetLen())
 			}
 		}
+		// the same number through the two other ways of asking for it: Get and List with the size option - each
+		// either fails or reports the sum over the partitions (never an older or partial number with a success)
+		gsize, gerr, lsize, lerr := -1, "", -1, ""
+		{
+			ctx, cancel := context.WithTimeout(context.Background(), 3*time.Second)
+			d, err := pb.NewDatasetManagerClient(p.conn).Get(ctx, &pb.GetDatasetRequest{DatasetId: u.Bytes(), WithSize: true})
+			cancel()
+			if err != nil {
+				gerr = err.Error()
+			} else {
+				gsize = int(d.GetSize())
+			}
+			ctx, cancel = context.WithTimeout(context.Background(), 4*time.Second)
+			st, err := pb.NewDatasetManagerClient(p.conn).List(ctx, &pb.ListDatasetsRequest{WithSize: true})
+			seen := false
+			for err == nil {
+				var d *pb.Dataset
+				d, err = st.Recv()
+				if err == nil && bytes.Equal(d.GetId(), u.Bytes()) {
+					lsize, seen = int(d.GetSize()), true
+				}
+			}
+			cancel()
+			if err != io.EOF {
+				lerr, lsize = err.Error(), -1
+			} else if !seen {
+				lerr = "dataset not listed"
+			}
+		}
 		// "the client connection is closing": the node used a client whose connection it has closed itself
 		closed := 0
 		if strings.Contains(es+serr+toperr+firstErr, "connection is closing") {
 			closed = 1
 		}
-		emit(event{"ev": "found", "via": p.id, "after": tag, "ids": ids, "err": es, "size": size, "sizeerr": serr, "top": top, "toperr": toperr, "closed": closed})
+		emit(event{"ev": "found", "via": p.id, "after": tag, "ids": ids, "err": es, "size": size, "sizeerr": serr, "top": top, "toperr": toperr, "closed": closed,
+			"gsize": gsize, "gsizeerr": gerr, "lsize": lsize, "lsizeerr": lerr})
 	}
 }
 
@@ -1124,6 +1155,26 @@ func main() {
 		observe(ps, "join")
 		create(b, 2, 2)
 		observe(ps, "create")
+	case "size-down":
+		// every partition on one node only, spread over the cluster; a node goes down, more items are written to the
+		// partitions that are still there: a size reported through any node by any of the three ways of asking
+		// (GetDatasetSize, Get / List with the size option) is the current sum - or the call fails
+		ds := createDesc(a, 6, 1, 3, pb.Space_Euclidean)
+		observe(ps, "create")
+		if ds == "" {
+			break
+		}
+		time.Sleep(1500 * time.Millisecond)
+		for k := 1; k <= 12; k++ {
+			writeItem(ds, "insert", ps[k%3], k)
+		}
+		findItems(ds, ps, "writes")
+		c.kill()
+		for k := 13; k <= 24; k++ {
+			writeItemN(ds, "insert", ps[k%2], k, 1)
+		}
+		findItems(ds, ps, "minority-down")
+		findItems(ds, ps, "minority-down")
 	case "leave":
 		ctx, cancel := context.WithTimeout(context.Background(), 5*time.Second)
 		_, err := pb.NewNodesManagerClient(a.conn).RemoveNode(ctx, &pb.Node{Id: 3})
